@@ -12,6 +12,12 @@
   run); the plain names at the end of the file discharge it over an ordered field from `FuelOK pr N M`
   and a stop flag that is never lowered (`Proofs/ZerofprFuel.lean`).
 
+  `zerofpr_eps_is_documented`: the returned ε equals `Props/C06.docCrit` — the independent specification of
+  the documented formulas — evaluated at the final iterate's data `(x, x̂, γ, ∇ψ(x), ∇ψ(x̂), ŷ)`, and that
+  data is the proximal data of the written-back point (`x̂ = Π_C(x − γ∇ψ(x))`, `p = x̂ − x`, the gradients
+  are the gradient oracle at `x` / `x̂`, `ŷ = ŷ(x̂)`, `γ > 0`); hypotheses `ProxIsProj`, `GradOracles`
+  (`Proofs/ZerofprDoc.lean`), no NaN.
+
   The no-progress counter is pinned to the *reported* iterates: it is `npRun` (`Props/C06.lean`) of
   the flags `xₖ == xₖ₊₁` between the `x` of consecutive progress callbacks
   (`zerofpr_no_progress_counter`), so `NoProgress` is returned only after more than
@@ -21,6 +27,7 @@
 import Alpaqa.Proofs.ZerofprInv
 import Alpaqa.Proofs.ZerofprChain
 import Alpaqa.Proofs.ZerofprFuel
+import Alpaqa.Proofs.ZerofprDoc
 import Alpaqa.Proofs.ZerofprExample
 import Alpaqa.Props.C06
 
@@ -408,6 +415,96 @@ theorem zerofpr_noProgress_needs_consecutive (P : Problem α) (dir : Direction D
   zerofpr_noProgress_needs_consecutive_fuel P dir d0 pr stop oot x0 y Sig errz0 gV gS iS
     (run_fuel P dir d0 pr stop hm N M hF oot x0 y Sig errz0 gV gS iS) hs
 
+/-! ### ε is the documented formula, recomputed from the final iterate's proximal data -/
+
+/-- **The reported ε equals the documented formula of the selected criterion, recomputed from the final
+    iterate data `(x, x̂, γ, ∇ψ(x), ∇ψ(x̂), ŷ)`** — and that data is the proximal data of the written-back
+    point.  For every solve that reached the main loop there is an iterate `c` (the one current at
+    exit) such that
+    * `ε = docCrit Π_C crit γ x x̂ ŷ ∇ψ(x) ∇ψ(x̂)` — `Props/C06.docCrit`, the independent specification
+      of the ten criteria — with `∇ψ(·)` the problem's gradient oracle evaluated at `c.x` and `c.x̂`;
+    * `γ > 0`, `x̂ = Π_C(x − γ∇ψ(x))`, `p = x̂ − x`, the iterate's `∇ψ(x)` member is `∇ψ(c.x)`,
+      `ŷ = ŷ(x̂)` (what `eval_ψ` returns at `x̂`);
+    * whenever the outputs are written, `x_out = x̂` and `y_out = ŷ`.
+    Hypotheses: `ProxIsProj` (the prox step is the projected-gradient step of a map `Π_C`),
+    `GradOracles` (the three gradient entry points agree), no NaN in the carrier, positivity of
+    `Lγ_factor`, `L_min`, `L_max`. -/
+theorem zerofpr_eps_is_documented_fuel (hnn : ∀ a : α, RealLike.isNaN a = false) (PC : Vec α → Vec α)
+    (P : Problem α)
+    (hP : C06.ProxIsProj PC (fun g x gr => ((P.prox g x gr).2.1, (P.prox g x gr).2.2)))
+    (hO : GradOracles P) (dir : Direction D α) (d0 : D) (pr : Params α)
+    (hmin : 0 < pr.Lmin) (hmax : 0 < pr.Lmax) (hfac : 0 < pr.LgammaFactor)
+    (stop : Nat → Bool) (oot : Bool) (x0 y Sig errz0 gV : Vec α) (gS iS : α)
+    (s0 : St α D) (hinit : initState P d0 pr stop x0 gV gS = .inr s0)
+    (hfuel : (run P dir d0 pr stop oot x0 y Sig errz0 gV gS iS).fuelOut = false) :
+    ∃ c, (run P dir d0 pr stop oot x0 y Sig errz0 gV gS iS).final = some c ∧
+      (run P dir d0 pr stop oot x0 y Sig errz0 gV gS iS).stats.eps =
+        C06.docCrit PC pr.stopCrit c.gamma c.x c.xhat c.yhat (P.gradPsi c.x) (P.gradPsi c.xhat) ∧
+      0 < c.gamma ∧ c.xhat = PC (vsub c.x (smul c.gamma (P.gradPsi c.x))) ∧
+      c.p = vsub c.xhat c.x ∧ c.gradPsi = P.gradPsi c.x ∧ c.yhat = (P.psi c.xhat).2 ∧
+      ((run P dir d0 pr stop oot x0 y Sig errz0 gV gS iS).wrote = true →
+        (run P dir d0 pr stop oot x0 y Sig errz0 gV gS iS).x = c.xhat ∧
+        (run P dir d0 pr stop oot x0 y Sig errz0 gV gS iS).y = c.yhat) := by
+  rcases run_cases P dir d0 pr stop oot x0 y Sig errz0 gV gS iS
+    (fun s => s.fuelOut = true ∨ DocInv P s)
+    (fun s hi => .inr ⟨(initState_good P d0 pr stop x0 gV gS s hi).1,
+      initState_gradAt P hO d0 pr stop x0 gV gS s hi,
+      (initState_gammaInv P d0 pr stop x0 gV gS hmin hmax hfac s hi).1⟩)
+    (fun s hI _ => by
+      have hs := headStep_same P pr stop oot s
+      rcases hI with hI | hI
+      · left; rw [iterBody_fuelOut, hs.2.2.2.2.1, hI]; rfl
+      · cases hfo : (iterBody P dir pr stop (headStep P pr stop oot s).1
+            (headStep P pr stop oot s).2.1).fuelOut
+        · exact .inr (docInv_step P hO dir pr stop oot s hI hfo)
+        · left; rfl)
+    hfuel with ⟨t, ht⟩ | ⟨s', hI, _, he⟩
+  · rw [hinit] at ht; exact absurd ht (by simp)
+  · have hs := headStep_same P pr stop oot s'
+    have hp := headStep_spec P pr stop oot s'
+    have hx := exitBlock_spec pr (headStep P pr stop oot s').1 (headStep P pr stop oot s').2.1
+      (headStep P pr stop oot s').2.2 x0 y Sig errz0
+    rw [he] at hfuel
+    rw [hx.2.2.2.2.2.1, hs.2.2.2.2.1] at hfuel
+    rcases hI with hI | hI
+    · rw [hI] at hfuel; exact absurd hfuel (by decide)
+    · obtain ⟨⟨⟨hh, hxh, hpp⟩, hy⟩, hg, hγ⟩ := hI
+      have hxh' : s'.curr.xhat = PC (vsub s'.curr.x (smul s'.curr.gamma s'.curr.gradPsi)) := by
+        rw [hxh]; exact congrArg Prod.fst (hP s'.curr.gamma s'.curr.x s'.curr.gradPsi)
+      have hpp' : s'.curr.p = vsub s'.curr.xhat s'.curr.x := by
+        rw [hpp, hxh']; exact congrArg Prod.snd (hP s'.curr.gamma s'.curr.x s'.curr.gradPsi)
+      have hgh : P.gradL s'.curr.xhat s'.curr.yhat = P.gradPsi s'.curr.xhat := by
+        rw [hy]; exact hO.gradL _
+      refine ⟨s'.curr, by rw [he, hx.2.2.2.2.1, hs.1], ?_, hγ, by rw [← hg]; exact hxh', hpp', hg, hy, ?_⟩
+      · rw [he, hx.2.2.2.1, hp.2.1, hgh, ← hg]
+        unfold epsOf
+        exact C06.calcErrorStopCrit_eq_doc hnn PC _ hP pr.stopCrit _ (ne_of_gt hγ) _ _ _ _ _ _ ⟨hxh', hpp'⟩
+      · intro hw
+        rw [he] at hw ⊢
+        unfold exitBlock at hw ⊢
+        simp only [] at hw ⊢
+        rw [hs.1]
+        exact ⟨by simp [hw], by simp [hw]⟩
+
+/-- `zerofpr_eps_is_documented_fuel` with the fuel hypothesis discharged. -/
+theorem zerofpr_eps_is_documented (hnn : ∀ a : α, RealLike.isNaN a = false) (PC : Vec α → Vec α)
+    (P : Problem α)
+    (hP : C06.ProxIsProj PC (fun g x gr => ((P.prox g x gr).2.1, (P.prox g x gr).2.2)))
+    (hO : GradOracles P) (dir : Direction D α) (d0 : D) (pr : Params α)
+    (stop : Nat → Bool) (hm : StopMono stop) (N M : Nat) (hF : FuelOK pr N M)
+    (hfac : 0 < pr.LgammaFactor) (oot : Bool) (x0 y Sig errz0 gV : Vec α) (gS iS : α)
+    (s0 : St α D) (hinit : initState P d0 pr stop x0 gV gS = .inr s0) :
+    ∃ c, (run P dir d0 pr stop oot x0 y Sig errz0 gV gS iS).final = some c ∧
+      (run P dir d0 pr stop oot x0 y Sig errz0 gV gS iS).stats.eps =
+        C06.docCrit PC pr.stopCrit c.gamma c.x c.xhat c.yhat (P.gradPsi c.x) (P.gradPsi c.xhat) ∧
+      0 < c.gamma ∧ c.xhat = PC (vsub c.x (smul c.gamma (P.gradPsi c.x))) ∧
+      c.p = vsub c.xhat c.x ∧ c.gradPsi = P.gradPsi c.x ∧ c.yhat = (P.psi c.xhat).2 ∧
+      ((run P dir d0 pr stop oot x0 y Sig errz0 gV gS iS).wrote = true →
+        (run P dir d0 pr stop oot x0 y Sig errz0 gV gS iS).x = c.xhat ∧
+        (run P dir d0 pr stop oot x0 y Sig errz0 gV gS iS).y = c.yhat) :=
+  zerofpr_eps_is_documented_fuel hnn PC P hP hO dir d0 pr hF.lmin hF.lmax hfac stop oot x0 y Sig errz0
+    gV gS iS s0 hinit (run_fuel P dir d0 pr stop hm N M hF oot x0 y Sig errz0 gV gS iS)
+
 section examples
 open Alpaqa.Zerofpr.Example
 
@@ -455,6 +552,37 @@ example : ∃ cb, runNP.callbacks.getLast? = some cb ∧ runNP.final = some cb.i
   zerofpr_final_callback exP dirBack () prNP (fun _ => false) (fun _ _ _ h => h) 7 9
     ⟨by norm_num [prNP, exPr], by norm_num [prNP, exPr], by norm_num [prNP, exPr],
      by norm_num [prNP, exPr], by norm_num, by decide⟩ false [3] [5] [2] [7] [] 0 1000000 _ rfl
+
+/-- `exP` with its prox step written as the projected-gradient step of `Π_C = clamp to [−1, 1]`
+    componentwise: `ProxIsProj` holds by definition, the gradient oracles of `exP` agree (`∇ψ(x) = x`
+    from all three entry points), `ℚ` has no NaN. -/
+def pcQ (v : Vec Rat) : Vec Rat := v.map clampQ
+
+def exPD : Problem Rat :=
+  { exP with prox := fun γ x g => (0, pcQ (vsub x (smul γ g)), vsub (pcQ (vsub x (smul γ g))) x) }
+
+theorem exPD_gradOracles : GradOracles exPD := ⟨fun _ => rfl, fun _ => rfl⟩
+
+/-- `eps_is_documented` with every hypothesis instantiated (three iterations, `FPRNorm`) … -/
+example : ∃ c, (run exPD exDir () { exPr with lsFuel := 4096 } (fun _ => false) false [3] [5] [2] [7] []
+      0 1000000).final = some c ∧
+    (run exPD exDir () { exPr with lsFuel := 4096 } (fun _ => false) false [3] [5] [2] [7] [] 0
+      1000000).stats.eps =
+      C06.docCrit pcQ .FPRNorm c.gamma c.x c.xhat c.yhat (exPD.gradPsi c.x) (exPD.gradPsi c.xhat) := by
+  obtain ⟨c, h1, h2, _⟩ := zerofpr_eps_is_documented (fun _ => rfl) pcQ exPD (fun _ _ _ => rfl)
+    exPD_gradOracles exDir () { exPr with lsFuel := 4096 } (fun _ => false) (fun _ _ _ h => h) 7 9
+    ⟨by norm_num [exPr], by norm_num [exPr], by norm_num [exPr], by norm_num [exPr], by norm_num,
+     by decide⟩ (by norm_num [exPr]) false [3] [5] [2] [7] [] 0 1000000 _ rfl
+  exact ⟨c, h1, h2⟩
+
+/-- … and the number: the final iterate is `x = 1/16`, `x̂ = 1/32`, `γ = 1/2`, and
+    `ε = γ⁻¹·‖x − Π_C(x − γ∇ψ(x))‖∞ = 2·(1/16 − 1/32) = 1/16`. -/
+example : (run exPD exDir () { exPr with lsFuel := 4096 } (fun _ => false) false [3] [5] [2] [7] [] 0
+      1000000).stats.eps = 1/16 ∧
+    C06.docCrit pcQ .FPRNorm (1/2) [1/16] [1/32] [1/32] [1/16] [1/32] = 1/16 := by
+  constructor
+  · decide +kernel
+  · norm_num [C06.docCrit, pcQ, clampQ, vsub, vzip, smul, C06Spec.maxAbs]
 
 /-- an interrupted solve and one that runs out of iterations meet the hypotheses too -/
 example : (∃ s0, initState exP () exPr stopAt9 [3] [] 0 = .inr s0) ∧
